@@ -153,13 +153,34 @@ func (c *CheckCtx) runModeT(pkgRels []string, cfgs []*HarnessCfg) {
 		}
 		pkgRel := strings.TrimPrefix(cfg.Pkg, repoMod+"/")
 		// distinct labels only: one replay per (label) for violations, per (known id) for known hits
-		seen := map[string]bool{}
 		n := 0
-		for _, v := range res.Violations {
-			if seen[v.Label] {
+		tries := map[string]int{}
+		repro := map[string]bool{}
+		lastFail := map[string]string{}
+		// order candidates so that different scenario picks (first symbolic choice) are tried first
+		cands := append([]Violation(nil), res.Violations...)
+		{
+			seenFirst := map[string]bool{}
+			var first, later []Violation
+			for _, v := range cands {
+				k := v.Label
+				if len(v.Vec) > 0 {
+					k += fmt.Sprintf("/%d", v.Vec[0])
+				}
+				if !seenFirst[k] {
+					seenFirst[k] = true
+					first = append(first, v)
+				} else {
+					later = append(later, v)
+				}
+			}
+			cands = append(first, later...)
+		}
+		for _, v := range cands {
+			if repro[v.Label] || tries[v.Label] >= 9 {
 				continue
 			}
-			seen[v.Label] = true
+			tries[v.Label]++
 			n++
 			rf := &ReplayFile{Property: c.ID, Pkg: pkgRel, Harness: cfg.Name, Label: v.Label, Vec: v.Vec, Tags: v.Tags, Params: cfg.Params}
 			path := c.saveReplay(rf, n)
@@ -167,13 +188,19 @@ func (c *CheckCtx) runModeT(pkgRels []string, cfgs []*HarnessCfg) {
 			lbl, st, out := nativeReplay(c.WorkDir, pkgRel, rf, path)
 			if st == "violated" {
 				c.Reproduced++
+				repro[v.Label] = true
 				c.Violations = append(c.Violations, fmt.Sprintf("VIOLATION property=%s replay=%s", c.ID, path))
 				c.Samples = append(c.Samples, map[string]interface{}{"violation": v.Label, "native_label": lbl, "harness": cfg.Name, "replay": path})
 			} else {
-				c.incon(fmt.Sprintf("%s: counterexample for %q did not reproduce natively (%s) - encoding mismatch or unrealisable stub answer; replay=%s", cfg.Name, v.Label, st, path))
+				lastFail[v.Label] = fmt.Sprintf("(%s) replay=%s", st, path)
 				if os.Getenv("VERIF_DEBUG") != "" {
 					fmt.Fprintln(os.Stderr, out)
 				}
+			}
+		}
+		for l, f := range lastFail {
+			if !repro[l] {
+				c.incon(fmt.Sprintf("%s: %d counterexample(s) for %q did not reproduce natively %s - encoding mismatch or unrealisable stub answer", cfg.Name, tries[l], l, f))
 			}
 		}
 		seenK := map[string]bool{}
